@@ -98,7 +98,11 @@ pub fn check(t: &Tree, init_x: Option<u8>, out: &Outcome<Obs>, log: &TapeLog) ->
 pub fn check_styled(t: &Tree, init_x: Option<u8>, out: &Outcome<Obs>, log: &TapeLog, style: u8) -> Option<(String, String)> {
     let tape: Vec<(u8, u32)> = log.choices.iter().map(|c| (c.kind, c.c)).collect();
     let faulted = log.choices.iter().any(|c| c.kind as usize == K_FAULT && c.c == 1);
-    let built = if style == 0 { String::new() } else { format!(" built-with={}", BUILD_STYLES[style as usize]) };
+    let built = match (style & 15, style >> 4) {
+        (0, 0) => String::new(),
+        (b, 0) => format!(" built-with={}", BUILD_STYLES[b as usize]),
+        (_, c) => format!(" conditions={}", COND_STYLES[c as usize]),
+    };
     let head = format!("C03 constructs={}{} {}", shape_class(t), built, if faulted { "with-fault" } else { "no-fault" });
     let ctx = |w: String| format!("tree {:?}{}, caller X = {:?}, environment answers {:?}: {}", t, built, init_x, tape, w);
     let (r, trace, fin) = match out {
@@ -106,7 +110,7 @@ pub fn check_styled(t: &Tree, init_x: Option<u8>, out: &Outcome<Obs>, log: &Tape
         Outcome::Panic(m) => return Some((format!("{} panic", head), ctx(format!("panicked: {}", m.chars().take(200).collect::<String>())))),
         _ => return None,
     };
-    let mut interp = Interp::new(vec![MScope { x: init_x, it: None }], &tape);
+    let mut interp = Interp::new_styled(vec![MScope { x: init_x, it: None }], &tape, style >> 4);
     let rr = interp.run(t);
     if *trace != interp.trace {
         let phase_of = |e: Option<&Event>| match e.map(|e| e.phase) {
@@ -201,6 +205,7 @@ pub fn run(rep: &mut Report) {
     let thorough = rep.tier == Tier::Thorough;
     rep.alpha("all configuration trees over {leaf, while, if, if/else, scope, scope with initialiser and merger} built through the public builder; leaves with effect in {none, insert X at init, insert X at execute, set_value X, require X}");
     rep.alpha("the same trees assembled through do_if_some_(Some/None), assert(true) steps in between, do_many_ over a Vec / a filtered iterator / chained iterators, and leaves split into do_(head) + debug(effect)");
+    rep.alpha("the same trees with every condition replaced by `c & c'`, `c | c'` or `!c` over scripted operands (each operand with its own answers and fault points)");
     rep.alpha("environment: every scripted condition evaluation answers by explorer choice (all outcomes for the first K evaluations, false afterwards); at most one injected error at any (phase, node) of any leaf or condition; caller state with and without X");
     rep.assume("the reference interpreter transcribes the documented lifecycle (init everything outside scopes once, then all requirements, then execute; loop re-inits its condition on entry, tests before every pass, +1 on the innermost visible counter per completed pass; scope body init/require/execute against a child per entry; scope closed on error)");
     let cap = if thorough { 6 } else { 5 };
@@ -248,6 +253,36 @@ pub fn run(rep: &mut Report) {
     }
     for s in &BUILD_STYLES[1..] {
         part.outcome(format!("style:{}", s));
+    }
+    rep.push(part);
+
+    // the same programs with composed conditions (`c & c'`, `c | c'`, `!c`) in place of every single condition: every operand
+    // is initialised, requirement-checked and evaluated in order, the first error is returned
+    let mut part = Part::new("programs.composed-conditions");
+    let withc: Vec<&Tree> = trees.iter().filter(|t| size(t) <= if thorough { 4 } else { 3 } && shape_class(t) != "seq" && shape_class(t) != "scope" && shape_class(t) != "scope-with").collect();
+    part.bound("condition_evaluation_cap", (cap2 + 2) as u64).bound("trees", withc.len() as u64).bound("compositions", (COND_STYLES.len() - 1) as u64);
+    let subs: Vec<Part> = withc
+        .par_chunks(16)
+        .map(|chunk| {
+            let mut sub = Part::new("x");
+            for t in chunk {
+                for cs in 1..COND_STYLES.len() as u8 {
+                    // `!c` as a loop condition never ends once the scripted answers are used up (they default to false)
+                    if cs == 3 && shape_class(t).contains("while") {
+                        continue;
+                    }
+                    explore_tree_styled(t, None, cap2 + 2, &mut sub, cs << 4);
+                    explore_tree_styled(t, Some(7), cap2 + 2, &mut sub, cs << 4);
+                }
+            }
+            sub
+        })
+        .collect();
+    for s in subs {
+        part.absorb(s);
+    }
+    for s in &COND_STYLES[1..] {
+        part.outcome(format!("conditions:{}", s));
     }
     rep.push(part);
 }
